@@ -76,6 +76,36 @@ CHECKS = {
         "text": "Theorems: the handler invoked is the one keyed by the normalised name iff present, else None; keys are case-insensitive; `==` is true iff the trees are structurally equal. Tied to the real NodeVisitor / Node / LiteralNode by differential runs.",
         "design_ref": "DESIGN.md section 8 / C18",
     },
+    "C05": {
+        "technique": "Lean 4: reference grammar of RFC 5234 s.4 + RFC 7405 typed from the RFCs and run by the (proved-sound) engine model; differential against the reader's 24 meta rules on generated/mutated/exhaustive-short ABNF fragments at every offset",
+        "text": "The reader's hand-written table is compared, rule for rule and offset for offset, with the RFC grammar transcribed independently in Lean (Abnf/Ref.lean) and executed by the engine model; the engine model's soundness w.r.t. RFC 5234 derivations is a theorem.",
+        "design_ref": "DESIGN.md section 8 / C05",
+    },
+    "C06": {
+        "technique": "Lean 4 reference table of Appendix B.1 (Abnf/Ref.lean) + exhaustive sweep of all 1,114,112 code points for the 14 single-character rules from the base class and a fresh subclass; CRLF/LWSP against the engine model on the reference grammar on all short strings",
+        "text": "Exhaustive over the whole code point space for the single-character rules (a finite domain enumerated completely), compared with the B.1 intervals typed from the RFC; sequences for CRLF and LWSP compared with the reference grammar on all strings up to a length bound.",
+        "design_ref": "DESIGN.md section 8 / C06",
+    },
+    "C08": {
+        "technique": "Lean 4 proof (cached engine lparseC refines the cache-free engine for every cache state whose entries are correct, any limit, any eviction) + scripted-history differential (warm vs cold unlimited twin vs cache-free model)",
+        "text": "Cache transparency theorem over the model with an abstract cache (any implementation of lookup/store that only returns stored values); tie: random request histories with clears and limit changes on live caches vs a cold unlimited twin and the cache-free model.",
+        "design_ref": "DESIGN.md section 8 / C08",
+    },
+    "C09": {
+        "technique": "Independent reading of every module's ABNF text (reference reader) + declared imports + documented flags, executed by the Lean engine model; differential against all 826 compiled rules; static well-formedness (closed, no left recursion, no prose, productive) on the reference grammar",
+        "text": "For every bundled rule the compiled object graph is compared behaviourally with what the module's own text denotes (read by a reader written independently of the library) on derived, mutated and boundary strings; the engine model that executes the reference reading is proved sound.",
+        "design_ref": "DESIGN.md section 8 / C09",
+    },
+    "C11": {
+        "technique": "Lean 4 proof (first-match = first alternative that matches at all; exclusion = whole-span test) over the engine model + differential on generated grammars with dense flags/exclusions and toggle sequences, adjudicated by the reference set semantics",
+        "text": "Theorems about altEval with the flag on/off and about the exclusion filter for all grammars and inputs; tie: end sets on generated flagged grammars and after toggle sequences through the public property.",
+        "design_ref": "DESIGN.md section 8 / C11",
+    },
+    "C17": {
+        "technique": "Lean 4 proof (every interleaving of cache lookups/stores of several requests over a shared correct cache yields the sequential results) + controlled token-passing schedules with yield points at every cache operation, stress run, generator interleaving/abandonment",
+        "text": "Partial by nature: the theorem covers all interleavings at the granularity of cache operations in the model; real pre-emption and the GIL's atomicity are runtime facts tied by deterministic schedules injected at the cache operations, a stress run and generator interleavings.",
+        "design_ref": "DESIGN.md section 8 / C17",
+    },
 }
 
 NOT_YET = "check not built yet in this round (work in progress; see DESIGN.md section 8 for the plan)"
